@@ -159,7 +159,7 @@ class CifModel(WitnessModel):
         return super().sc_array(interp, args, kwargs, node)
 
 
-def written_items(repo, cit, build):
+def written_items(repo, cit, build, via='CIF.save'):
     """The Chunk / Loop objects handed to their write() when the CIF builder returned by build(interp) is saved: the public
     classes' own write methods are replaced by recorders, so whatever helpers assemble the items are not consulted by name."""
     rec = []
@@ -172,6 +172,8 @@ def written_items(repo, cit, build):
     try:
         def go(i):
             c = build(i)
+            if via == 'save_cif':
+                return i.call_function(repo.func(MOD, 'save_cif'), [Sink(), c], {})
             return i.call_function(repo.func(MOD, 'CIF.save'), [Sink()], {}, bound=c)
         outs = cit.run_all(go)
     finally:
@@ -456,6 +458,37 @@ def run(tier: str) -> Run:
         ids = cols.get('pd_calib_d_to_tof.id')
         ids_v = [x.members.get('concrete') for x in (items_of(ids) or [])] if isinstance(ids, SVar) else getattr(ids, 'members', {}).get('py_values')
         r3.check(ok and ids_v == ['ZERO', 'DIFC', 'DIFA'], inst, kwhere, {'columns': list(cols), 'ids': ids_v}, key='calib-su')
+
+    # ---- R6 sequences of builder calls: what an earlier call added is still written after later calls, by either way of saving ------------
+    r6 = run.rule('R6', 'a builder keeps what earlier calls added: reduced data, calibration and authors added one after the other are all written, '
+                        'through CIF.save and through save_cif', 2)
+    for via in ('CIF.save', 'save_cif'):
+        T.reset()
+        cm = CifModel()
+        cit = WitnessInterp(repo, cm)
+
+        def powers6(i, m):
+            items = []
+            for pw in (0, 1, 2):
+                it_ = m.new(i, Rat.const(pw), Unit(), 'int64')
+                it_.members['concrete'] = pw
+                it_.members['dims'] = []
+                items.append(it_)
+            return {'power': m.array(i, items, 'cal')}
+
+        def build6(i, cm=cm):
+            c = i.construct(cif_cls, [], {'name': 'n'}, None)
+            c = i.call_function(repo.func(MOD, 'CIF.with_reduced_powder_data'), [symbolic_data(i, cm, 'tof', 'us', True, True)], {}, bound=c)
+            cal = symbolic_data(i, cm, 'cal', 'us', False, False, powers6)
+            c = i.call_function(repo.func(MOD, 'CIF.with_powder_calibration'), [cal], {}, bound=c)
+            return i.call_function(repo.func(MOD, 'CIF.with_authors'), [Person('A', 'lead', True), Person('B', 'dev')], {}, bound=c)
+        outs, items = written_items(repo, cit, build6, via=via)
+        tables = [item_table(x) for x in items]
+        have = {'reduced data': any('pd_meas.time_of_flight' in t_ for t_ in tables), 'calibration': any('pd_calib_d_to_tof.coeff' in t_ for t_ in tables),
+                'contact author': any('audit_contact_author.name' in t_ for t_ in tables), 'author': any('audit_author.name' in t_ for t_ in tables)}
+        ok = len(outs) == 1 and outs[0].kind == 'return' and all(have.values())
+        r6.check(ok, f'reduced data, then calibration, then authors, saved through {via}', where_of(repo, MOD, 'CIF.copy', 'CIF.save'),
+                 {'written': have, 'outcomes': [(o.kind, o.exc_type, o.where) for o in outs], 'items_written': len(items)}, key=f'sequence:{via}')
 
     # ---- R5 numbers with a standard uncertainty ------------------------------------------------------------
     r5 = run.rule('R5', 'a number supplied with a variance is written in the compact value(su) notation on every path, one supplied without is written '
